@@ -8,7 +8,7 @@ CONSTANTS
   MaxFrames = 2
   Kinds = {"arr", "struct", "map"}
   MaxLeak = 100
-  MapRemoveDropsFirst = FALSE
+  MapRemoveDropsFirst = TRUE
   BugAppend = FALSE
   BugRemGuard = FALSE
   Depth = 45
